@@ -106,7 +106,7 @@ fn stack_case<W: Num>(run: &mut Run, rng: &mut Rng) {
     run.count("stack_cases", 1);
     run.h(1 << 60 | wb as u64);
     let (henc, hdec, hlens) = huffman(rng);
-    let mut st = StackCoder::<W>::new();
+    let mut st = if rng.bool() { StackCoder::<W>::new() } else { StackCoder::<W>::with_bit_capacity(rng.usize_in(0, 200)) };
     let mut shadow: Vec<Item> = Vec::new();
     let mut bits = 0usize;
     let n = rng.usize_in(1, if run.small { 25 } else { 120 });
@@ -119,7 +119,7 @@ fn stack_case<W: Num>(run: &mut Run, rng: &mut Rng) {
         }};
     }
     for _ in 0..n {
-        let op = rng.below(13);
+        let op = rng.below(15);
         run.h(op);
         if bits % wb == 0 {
             boundary_ops += 1;
@@ -190,6 +190,65 @@ fn stack_case<W: Num>(run: &mut Run, rng: &mut Rng) {
                 }
                 run.count("reimports", 1);
             }
+            12 => {
+                // batch forms with Huffman codebooks: (reverse) iid encode, iid / per-codebook decode
+                let k = rng.usize_in(1, 6);
+                let syms: Vec<usize> = (0..k).map(|_| rng.below(hlens.len() as u64) as usize).collect();
+                let form = rng.below(3);
+                let r = match form {
+                    0 => st.encode_iid_symbols(syms.iter().copied(), &henc),
+                    1 => st.encode_iid_symbols_reverse(syms.iter().rev().copied(), &henc),
+                    _ => st.encode_symbols_reverse(syms.iter().rev().map(|&s| (s, &henc))),
+                };
+                if r.is_err() {
+                    fail!("C16/write-failed", "batch encode form {form} failed");
+                }
+                for &sy in &syms {
+                    bits += hlens[sy];
+                    shadow.push(Item::Huff(sy));
+                }
+                log.push(format!("batch_encode(form={form},{syms:?})"));
+                // read some of them back in a batch
+                let kk = rng.usize_in(0, k);
+                let got: Vec<usize> = if rng.bool() {
+                    st.decode_iid_symbols(kk, &hdec).map(|r| r.expect("batch decode")).collect()
+                } else {
+                    st.decode_symbols((0..kk).map(|_| &hdec)).map(|r| r.expect("batch decode")).collect()
+                };
+                for g in got {
+                    let e = shadow.pop().unwrap();
+                    bits -= item_bits(&e, &hlens);
+                    if e != Item::Huff(g) {
+                        fail!("C16/stack-order", "batch decode returned symbol {g}, expected {e:?}");
+                    }
+                }
+                run.count("batch_ops", 1);
+            }
+            13 => {
+                // consuming views on an identical twin: into_decoder / into_iterator / ExactSizeIterator::len
+                let mut twin = StackCoder::<W>::new();
+                for it in &shadow {
+                    write_item::<constriction::Stack, _>(&mut twin, it, &henc);
+                }
+                if rng.bool() {
+                    let mut d = twin.into_decoder();
+                    if ExactSizeIterator::len(&d) != bits {
+                        fail!("C16/len", "into_decoder(): ExactSizeIterator::len()={} with {bits} bits", ExactSizeIterator::len(&d));
+                    }
+                    for e in shadow.iter().rev() {
+                        let g = read_item::<constriction::Stack, _>(&mut d, e, &hdec);
+                        if g.as_ref() != Some(e) {
+                            fail!("C16/stack-order", "into_decoder read {g:?}, expected {e:?}");
+                        }
+                    }
+                } else {
+                    let n = twin.into_iterator().count();
+                    if n != bits {
+                        fail!("C16/len", "into_iterator() yields {n} bits, expected {bits}");
+                    }
+                }
+                log.push("consuming view".to_string());
+            }
             11 => {
                 // temporary view of the sealed words: must show what into_compressed would return
                 // and must leave the coder untouched (also when the current word is exactly full)
@@ -247,9 +306,24 @@ fn queue_case<W: Num>(run: &mut Run, rng: &mut Rng) {
     run.count("queue_cases", 1);
     run.h(2 << 60 | wb as u64);
     let (henc, hdec, hlens) = huffman(rng);
-    let mut qu = QueueEncoder::<W>::new();
+    // a queue encoder may be started on existing (whole) words
+    let prefix: Vec<W> = if rng.chance(1, 4) { (0..rng.usize_in(0, 3)).map(|_| W::of(rng.edgy(W::NBITS))).collect() } else { Vec::new() };
+    let mut qu = if !prefix.is_empty() {
+        QueueEncoder::<W>::from_compressed(prefix.clone())
+    } else if rng.bool() {
+        QueueEncoder::<W>::new()
+    } else {
+        QueueEncoder::<W>::with_bit_capacity(rng.usize_in(0, 200))
+    };
     let mut items: Vec<Item> = Vec::new();
-    let mut bits = 0usize;
+    let mut bits = prefix.len() * wb;
+    // the prefix words read back as raw bits, least significant first
+    for wd in &prefix {
+        for b in 0..wb {
+            items.push(Item::Bit((wd.as_u() >> b) & 1 == 1));
+        }
+    }
+    let prefix_items = items.len();
     let n = rng.usize_in(0, if run.small { 25 } else { 120 });
     for _ in 0..n {
         let it = gen_item(rng, hlens.len());
@@ -306,6 +380,7 @@ fn queue_case<W: Num>(run: &mut Run, rng: &mut Rng) {
             let it = qu.into_overshooting_iter().unwrap_infallible();
             let got: Vec<bool> = it.map(|r| r.unwrap_infallible()).collect();
             let mut expect: Vec<bool> = Vec::new();
+            let _ = prefix_items;
             for e in &items {
                 let mut tmp = QueueEncoder::<u64>::new();
                 write_item::<constriction::Queue, _>(&mut tmp, e, &henc);
